@@ -23,6 +23,8 @@ open Np Weights
 
 namespace C15
 
+set_option linter.unusedSectionVars false
+
 /-! ## 1. `corrprod_to_autocorr` -/
 
 section lookup
@@ -134,5 +136,584 @@ theorem autocorr_lookup_total (cps : List (α × α))
   exact ⟨(autosFrom 0 cps).map (·.2), r1, r2, by simp [corrprodToAutocorr, h1, h2]⟩
 
 end lookup
+
+/-! ## 2. `weight_power_scale` -/
+
+section wps
+variable {K : Type} [Field K] [LinearOrder K] [IsStrictOrderedRing K]
+variable {α : Type} [DecidableEq α]
+
+/-- **c15_structure** (one time-frequency sample; `weight_power_scale` treats every sample alike,
+    see `c15_structure_3d`): with the lookup arrays of `corrprod_to_autocorr`, the kernel never
+    indexes out of range and
+    `out[b] = k(re vis[auto₁ b], re vis[auto₂ b], w[b])` where `auto₁ b`, `auto₂ b` are positions
+    of the products `(x, x)`, `(y, y)` for `corrprods[b] = (x, y)`, and `k` is the scalar kernel as
+    coded (`kernelImpl`). -/
+theorem c15_structure (bad : K) (divide : Bool) (cps : List (α × α)) (ai i1 i2 : List Nat)
+    (visRe wRow : List (Scalar K)) (hc : corrprodToAutocorr cps = .ok (ai, i1, i2))
+    (hB : visRe.length = cps.length) (hW : wRow.length = cps.length) :
+    ∃ out, scaleRow bad divide ai i1 i2 visRe wRow = .ok out ∧ out.length = cps.length ∧
+      ∀ (b : Nat) (x y : α), cps[b]? = some (x, y) →
+        ∃ (p1 p2 : Nat) (a1 a2 w : Scalar K), cps[p1]? = some (x, x) ∧ cps[p2]? = some (y, y) ∧
+          visRe[p1]? = some a1 ∧ visRe[p2]? = some a2 ∧ wRow[b]? = some w ∧
+          out[b]? = some (kernelImpl bad divide a1 a2 w) := by
+  obtain ⟨hl1, hl2, hlook⟩ := autocorr_lookup cps ai i1 i2 hc
+  obtain ⟨_, hmem⟩ := autocorr_indices cps ai i1 i2 hc
+  have hai : ∀ p ∈ ai, p < visRe.length := by
+    intro p hp
+    obtain ⟨a, ha⟩ := (hmem p).1 hp
+    have := (List.getElem?_eq_some_iff.1 ha).1
+    omega
+  have hj : ∀ (il : List Nat), (∀ (b : Nat) k, il[b]? = some k → ∃ p, ai[k]? = some p) → ∀ j ∈ il, j < ai.length := by
+    intro il hil j hjm
+    obtain ⟨b, hb, hbj⟩ := List.getElem_of_mem hjm
+    obtain ⟨p, hp⟩ := hil b j (by simp [List.getElem?_eq_getElem hb, hbj])
+    exact (List.getElem?_eq_some_iff.1 hp).1
+  have hget : ∀ (b : Nat), b < cps.length → ∃ x y, cps[b]? = some (x, y) := by
+    intro b hb
+    exact ⟨cps[b].1, cps[b].2, by simp [List.getElem?_eq_getElem hb]⟩
+  have hj1 : ∀ j ∈ i1, j < ai.length := by
+    apply hj
+    intro b k hk
+    have hb : b < cps.length := by
+      have := (List.getElem?_eq_some_iff.1 hk).1; omega
+    obtain ⟨x, y, hxy⟩ := hget b hb
+    obtain ⟨k1, k2, p1, p2, e1, _, e3, _⟩ := hlook b x y hxy
+    rw [hk] at e1
+    cases e1
+    exact ⟨p1, e3⟩
+  have hj2 : ∀ j ∈ i2, j < ai.length := by
+    apply hj
+    intro b k hk
+    have hb : b < cps.length := by
+      have := (List.getElem?_eq_some_iff.1 hk).1; omega
+    obtain ⟨x, y, hxy⟩ := hget b hb
+    obtain ⟨k1, k2, p1, p2, _, e2, _, e4, _⟩ := hlook b x y hxy
+    rw [hk] at e2
+    cases e2
+    exact ⟨p2, e4⟩
+  obtain ⟨out, hout⟩ := scaleRow_total bad divide ai i1 i2 visRe wRow hai (by omega) (by omega) (by omega) hj1 hj2
+  obtain ⟨hol, hstruct⟩ := scaleRow_structure bad divide ai i1 i2 visRe wRow out hout
+  refine ⟨out, hout, by omega, ?_⟩
+  intro b x y hxy
+  have hb : b < cps.length := (List.getElem?_eq_some_iff.1 hxy).1
+  obtain ⟨k1, k2, p1, p2, e1, e2, e3, e4, c1, c2⟩ := hlook b x y hxy
+  have hp1 : p1 < visRe.length := by have := (List.getElem?_eq_some_iff.1 c1).1; omega
+  have hp2 : p2 < visRe.length := by have := (List.getElem?_eq_some_iff.1 c2).1; omega
+  have hbw : b < wRow.length := by omega
+  refine ⟨p1, p2, visRe[p1], visRe[p2], wRow[b], c1, c2, by simp [hp1], by simp [hp2], by simp [hbw], ?_⟩
+  exact hstruct b k1 k2 p1 p2 _ _ _ (by omega) e1 e2 e3 e4 (by simp [hp1]) (by simp [hp2]) (by simp [hbw])
+
+/-- the `(T, F, B)` function applies the per-sample computation to every `(t, f)` with the same
+    lookup arrays -/
+theorem c15_structure_3d (bad : K) (divide : Bool) (ai i1 i2 : List Nat) (vis w out : Arr3 (Scalar K))
+    (h : weightPowerScale bad divide ai i1 i2 vis w = .ok out) (t f : Nat) (vr wr : List (Scalar K))
+    (hv : get2 vis t f = some vr) (hw : get2 w t f = some wr) :
+    ∃ orow, get2 out t f = some orow ∧ scaleRow bad divide ai i1 i2 vr wr = .ok orow := by
+  unfold weightPowerScale at h
+  obtain ⟨_, _, hp⟩ := zipME_ok h
+  unfold get2 at hv hw
+  cases hvt : vis[t]? with
+  | none => simp [hvt] at hv
+  | some vt =>
+    cases hwt : w[t]? with
+    | none => simp [hwt] at hw
+    | some wt =>
+      simp only [hvt] at hv
+      simp only [hwt] at hw
+      obtain ⟨ot, hot, hz⟩ := hp t vt wt hvt hwt
+      obtain ⟨_, _, hp2⟩ := zipME_ok hz
+      obtain ⟨orow, hor, hs⟩ := hp2 f vr wr hv hw
+      exact ⟨orow, by simp [get2, hot, hor], hs⟩
+
+/-- **c15_kernel_partial**: the kernel as coded equals the documented kernel
+    (`w / (a₁·a₂)` when dividing, `w·a₁·a₂` when multiplying back, `bad·w` substituted where an
+    autocorrelation is zero or not finite) for every input outside the known-finding family
+    `infFamily` (dividing by an autocorrelation of ±inf whose partner is neither zero nor NaN). -/
+theorem c15_kernel_partial (bad : K) (divide : Bool) (a1 a2 w : Scalar K)
+    (h : infFamily divide a1 a2 = false) :
+    kernelImpl bad divide a1 a2 w = kernelSpec bad divide a1 a2 w :=
+  kernelImpl_eq_spec bad divide a1 a2 w h
+
+/-- the documented kernel, spelled out on finite values -/
+theorem c15_kernel_documented (bad x y z : K) :
+    (x ≠ 0 → y ≠ 0 → kernelSpec bad true (.val x) (.val y) (.val z) = .val (z / (x * y))) ∧
+    (∀ a1 a2 : Scalar K, a1.isBadAuto = true ∨ a2.isBadAuto = true →
+      kernelSpec bad true a1 a2 (.val z) = .val (bad * z)) ∧
+    kernelSpec bad false (.val x) (.val y) (.val z) = .val (x * y * z) :=
+  ⟨kernelSpec_divide_val bad x y z, fun a1 a2 h => kernelSpec_divide_bad bad z a1 a2 h,
+   kernelSpec_multiply_val bad x y z⟩
+
+/-- the spec side the harness compares against (`weightsRowSpec`), element by element: the
+    documented kernel on the autocorrelations found *by label* -/
+theorem c15_spec_row (bad : K) (divide : Bool) (cps : List (α × α)) (visRe wRow out : List (Scalar K))
+    (h : weightsRowSpec bad divide cps visRe wRow = .ok out) :
+    out.length = cps.length ∧ wRow.length = cps.length ∧
+    ∀ (b : Nat) (x y : α) (w : Scalar K), cps[b]? = some (x, y) → wRow[b]? = some w →
+      ∃ (p1 p2 : Nat) (a1 a2 : Scalar K), cps[p1]? = some (x, x) ∧ cps[p2]? = some (y, y) ∧
+        visRe[p1]? = some a1 ∧ visRe[p2]? = some a2 ∧ out[b]? = some (kernelSpec bad divide a1 a2 w) :=
+  weightsRowSpec_get bad divide cps visRe wRow out h
+
+/-- **c15_row_partial**: code = documentation on a whole sample.  When no autocorrelation product
+    is listed twice, every element of `weight_power_scale`'s output equals the documented value
+    unless its two autocorrelations fall in the known-finding family `infFamily`. -/
+theorem c15_row_partial (bad : K) (divide : Bool) (cps : List (α × α)) (ai i1 i2 : List Nat)
+    (visRe wRow out sout : List (Scalar K)) (hc : corrprodToAutocorr cps = .ok (ai, i1, i2))
+    (hB : visRe.length = cps.length) (hW : wRow.length = cps.length)
+    (hnd : ∀ (p q : Nat) (a : α), cps[p]? = some (a, a) → cps[q]? = some (a, a) → p = q)
+    (ho : scaleRow bad divide ai i1 i2 visRe wRow = .ok out)
+    (hs : weightsRowSpec bad divide cps visRe wRow = .ok sout)
+    (b : Nat) (x y : α) (hb : cps[b]? = some (x, y))
+    (hfam : ∀ (p1 p2 : Nat) (a1 a2 : Scalar K), cps[p1]? = some (x, x) → cps[p2]? = some (y, y) →
+      visRe[p1]? = some a1 → visRe[p2]? = some a2 → infFamily divide a1 a2 = false) :
+    out[b]? = sout[b]? := by
+  obtain ⟨out', ho', _, hst⟩ := c15_structure bad divide cps ai i1 i2 visRe wRow hc hB hW
+  rw [ho] at ho'
+  cases ho'
+  obtain ⟨p1, p2, a1, a2, w, c1, c2, v1, v2, hw, hout⟩ := hst b x y hb
+  obtain ⟨_, _, hsp⟩ := weightsRowSpec_get bad divide cps visRe wRow sout hs
+  obtain ⟨q1, q2, b1, b2, d1, d2, u1, u2, hsout⟩ := hsp b x y w hb hw
+  have e1 := hnd p1 q1 x c1 d1
+  have e2 := hnd p2 q2 y c2 d2
+  subst e1; subst e2
+  rw [v1] at u1
+  rw [v2] at u2
+  cases u1; cases u2
+  rw [hout, hsout, kernelImpl_eq_spec bad divide a1 a2 w (hfam p1 p2 a1 a2 c1 c2 v1 v2)]
+
+end wps
+
+/-- the full statement (kernel as coded = documented kernel on *all* inputs) is false: an
+    autocorrelation of +inf gives weight 0, not the tiny positive substitute -/
+theorem c15_kernel_full_is_false :
+    ¬ ∀ (a1 a2 w : Scalar Rat), kernelImpl badWeightRat true a1 a2 w = kernelSpec badWeightRat true a1 a2 w := by
+  intro h
+  have := h .posInf (.val 1) (.val 1)
+  revert this
+  decide +kernel
+
+example : kernelImpl badWeightRat true (.val 2) (.val 4) (.val 3) = .val (3 / 8) := by decide +kernel
+example : kernelImpl badWeightRat true (.val 0) (.val 4) (.val 3) = .val (3 / 4294967296) := by decide +kernel
+example : kernelImpl badWeightRat true .posInf (.val 4) (.val 3) = .val 0 := by decide +kernel
+example : kernelSpec badWeightRat true .posInf (.val 4) (.val 3) = .val (3 / 4294967296) := by decide +kernel
+example : infFamily true (.posInf : Scalar Rat) (.val 4) = true := by decide +kernel
+example : ∃ out, scaleRow badWeightRat true [1, 2] [1, 0, 1, 0] [0, 0, 1, 1]
+    [.val 5, .val 2, .val 4, .val 7] [.val 3, .val 3, .val 3, .val 3] = .ok out ∧
+    out = [.val (3 / 8), .val (3 / 4), .val (3 / 16), .val (3 / 8)] := ⟨_, by decide +kernel, rfl⟩
+
+/-! ## 3. stored, scaled and unscaled weights -/
+
+section vfw
+variable {K : Type} [Field K] [LinearOrder K] [IsStrictOrderedRing K]
+variable {α : Type} [DecidableEq α]
+
+/-- `stored[t,f,b] = weights[t,f,b] · weights_channel[t,f]` -/
+theorem c15_stored_weights (w stored : Arr3 (Scalar K)) (wc : Arr2 (Scalar K))
+    (h : storedWeights w wc = .ok stored) (t f b : Nat) (x c : Scalar K)
+    (hx : get3 w t f b = some x) (hc : get2 wc t f = some c) :
+    get3 stored t f b = some (x.mul c) := by
+  unfold storedWeights at h
+  obtain ⟨_, _, hp⟩ := zipME_ok h
+  unfold get3 at hx
+  unfold get2 at hc
+  cases hwt : w[t]? with
+  | none => simp [hwt] at hx
+  | some wt =>
+    cases hct : wc[t]? with
+    | none => simp [hct] at hc
+    | some ct =>
+      simp only [hwt] at hx
+      simp only [hct] at hc
+      obtain ⟨st, hst, hz⟩ := hp t wt ct hwt hct
+      obtain ⟨_, _, hp2⟩ := zipME_ok hz
+      cases hwf : wt[f]? with
+      | none => simp [hwf] at hx
+      | some row =>
+        simp only [hwf] at hx
+        obtain ⟨srow, hsr, he⟩ := hp2 f row c hwf hc
+        simp only [Except.ok.injEq] at he
+        subst he
+        simp [get3, hst, hsr, List.getElem?_map, hx]
+
+/-- **c15_scaled_unscaled**: which array is which.  With `stored = weights·weights_channel`:
+    * stream declares *unscaled* stored weights (`storedWeightsAreScaled = false`):
+      `weights = weight_power_scale(vis, stored, divide=True)` (i.e. `stored / (a₁·a₂)`) and
+      `unscaled_weights = stored`;
+    * otherwise `weights = stored` and
+      `unscaled_weights = weight_power_scale(vis, stored, divide=False)` (i.e. `stored·a₁·a₂`);
+    in both cases `vis` is the visibility array the object exposes (Van Vleck corrected when the
+    correction is on). -/
+theorem c15_scaled_unscaled (bad : K) (vis : Arr3 (Cx (Scalar K))) (w : Arr3 (Scalar K)) (wc : Arr2 (Scalar K))
+    (cps : List (α × α)) (scaled : Bool) (vv : Option (List (K × K))) (r : VFW K)
+    (h : chunkStoreVFW bad vis w wc (some cps) scaled vv = .ok r) :
+    ∃ stored, storedWeights w wc = .ok stored ∧
+      (match vv with
+        | none => r.vis = vis
+        | some tbl => correctAutocorrQuantisation tbl cps vis = .ok r.vis) ∧
+      (if scaled then
+        r.weights = stored ∧ ∃ un, r.unscaled = some un ∧ scaleWeights bad false cps r.vis stored = .ok un
+       else
+        r.unscaled = some stored ∧ scaleWeights bad true cps r.vis stored = .ok r.weights) := by
+  unfold chunkStoreVFW at h
+  cases hs : storedWeights w wc with
+  | error e => cases vv <;> simp [hs] at h; split at h <;> simp at h
+  | ok stored =>
+    refine ⟨stored, rfl, ?_⟩
+    cases vv with
+    | none =>
+      cases scaled
+      · simp only [hs] at h
+        cases hsc : scaleWeights bad true cps vis stored with
+        | error e => simp [hsc] at h
+        | ok sc =>
+          simp [hsc] at h
+          subst h
+          simp [hsc]
+      · simp only [hs] at h
+        cases hsc : scaleWeights bad false cps vis stored with
+        | error e => simp [hsc] at h
+        | ok un =>
+          simp [hsc] at h
+          subst h
+          simp [hsc]
+    | some tbl =>
+      cases hv : correctAutocorrQuantisation tbl cps vis with
+      | error e => simp [hv] at h
+      | ok vis' =>
+        cases scaled
+        · simp only [hs, hv] at h
+          cases hsc : scaleWeights bad true cps vis' stored with
+          | error e => simp [hsc] at h
+          | ok sc =>
+            simp [hsc] at h
+            subst h
+            simp [hsc, hv]
+        · simp only [hs, hv] at h
+          cases hsc : scaleWeights bad false cps vis' stored with
+          | error e => simp [hsc] at h
+          | ok un =>
+            simp [hsc] at h
+            subst h
+            simp [hsc, hv]
+
+/-- `_scale_weights` is `weight_power_scale` on the real parts with the global lookup -/
+theorem c15_scale_weights_unfold (bad : K) (divide : Bool) (cps : List (α × α)) (vis : Arr3 (Cx (Scalar K)))
+    (w out : Arr3 (Scalar K)) (h : scaleWeights bad divide cps vis w = .ok out) :
+    ∃ ai i1 i2, corrprodToAutocorr cps = .ok (ai, i1, i2) ∧
+      weightPowerScale bad divide ai i1 i2 (reParts vis) w = .ok out := by
+  unfold scaleWeights at h
+  cases hc : corrprodToAutocorr cps with
+  | error e => simp [hc] at h
+  | ok t =>
+    obtain ⟨ai, i1, i2⟩ := t
+    simp only [hc] at h
+    exact ⟨ai, i1, i2, rfl, h⟩
+
+end vfw
+
+/-! ## 4. chunking along the baseline axis -/
+
+section chunk
+variable {K : Type} [Field K] [LinearOrder K] [IsStrictOrderedRing K]
+variable {α : Type} [DecidableEq α]
+
+/-- **c15_baseline_chunk_invariant**: however the visibilities and the weights of a sample are cut
+    into chunks along the baseline axis (independently of each other), `_scale_weights` computes
+    what the unchunked computation with the global lookup computes. -/
+theorem c15_baseline_chunk_invariant (bad : K) (divide : Bool) (cps : List (α × α))
+    (visRe wRow : List (Scalar K)) (sv sw : List Nat) (hv : sv.sum = visRe.length) (hw : sw.sum = wRow.length) :
+    scaleRowChunked bad divide cps (splitBy sv visRe) (splitBy sw wRow) =
+      scaleRowChunked bad divide cps [visRe] [wRow] := by
+  unfold scaleRowChunked rechunkRow
+  rw [flatten_splitBy sv visRe hv, flatten_splitBy sw wRow hw]
+  simp
+
+example : splitBy [1, 2] [10, 20, 30] = [[10], [20, 30]] := by decide
+
+end chunk
+
+/-! ## 5. excision -/
+
+/-- **c15_excision_formula**: the transform chain of `d.excision` is
+    `1 − round_half_even(w / accs_per_cbf_dump)·accs_per_cbf_dump / accs_per_sdp_dump`
+    with `accs_per_cbf_dump = accs_per_sdp_dump / cbf_dumps_per_sdp_dump` -/
+theorem c15_excision_formula (A : Rat) (d : Int) (w : Rat) (hA : A ≠ 0) :
+    excision A d w = 1 - ((roundHalfEven (w / (A / (d : Rat))) : Rat) * (A / (d : Rat))) / A :=
+  excision_formula A d w hA
+
+/-- `0 ≤ excision ≤ 1` whenever `0 ≤ w ≤ accs_per_sdp_dump` (and there is at least one CBF dump
+    per SDP dump) -/
+theorem c15_excision_bounds (A : Rat) (d : Int) (w : Rat) (hA : 0 < A) (hd : 1 ≤ d) (h0 : 0 ≤ w) (h1 : w ≤ A) :
+    0 ≤ excision A d w ∧ excision A d w ≤ 1 :=
+  excision_bounds A d w hA hd h0 h1
+
+/-- the rounding used is "nearest integer, ties to even" (numpy / Python `round`), not Lean's
+    `Float.round` -/
+theorem c15_round_half_even (x : Rat) :
+    x - 1 / 2 ≤ (roundHalfEven x : Rat) ∧ (roundHalfEven x : Rat) ≤ x + 1 / 2 ∧
+    (((roundHalfEven x : Rat) = x + 1 / 2 ∨ (roundHalfEven x : Rat) = x - 1 / 2) → roundHalfEven x % 2 = 0) :=
+  ⟨(roundHalfEven_bounds x).1, (roundHalfEven_bounds x).2, roundHalfEven_tie_even x⟩
+
+example : roundHalfEven (1 / 2) = 0 ∧ roundHalfEven (3 / 2) = 2 ∧ roundHalfEven (5 / 2) = 2 ∧
+    roundHalfEven (-1 / 2) = 0 ∧ roundHalfEven (7 / 4) = 2 := by decide +kernel
+example : excision 256 4 96 = 1 / 2 ∧ excision 256 4 32 = 1 ∧ excision 256 4 256 = 0 := by decide +kernel
+
+/-- `d.excision[t,f,b]` is the transform of the unscaled weight at the same coordinates, with
+    `accs_per_sdp_dump = n_accs · round(dump_period / cbf_dump_period)`; without unscaled weights
+    or CBF attributes the excision is unavailable -/
+theorem c15_excision_pointwise (n : Nat) (dp cp : Rat) (u e : Arr3 Rat)
+    (h : excisionOf (some n) dp cp (some u) = .ok e) (t f b : Nat) :
+    get3 e t f b = (get3 u t f b).map
+      (excision (((n : Int) * cbfDumpsPerSdpDump dp cp : Int) : Rat) (cbfDumpsPerSdpDump dp cp)) := by
+  simp only [excisionOf, Except.ok.injEq] at h
+  subst h
+  unfold get3
+  simp only [List.getElem?_map]
+  cases u[t]? with
+  | none => rfl
+  | some r =>
+    simp only [Option.map_some, List.getElem?_map]
+    cases r[f]? with
+    | none => rfl
+    | some q => simp
+
+theorem c15_excision_unavailable (n : Option Nat) (dp cp : Rat) (u : Option (Arr3 Rat)) :
+    excisionOf none dp cp u = .error .value ∧ excisionOf n dp cp none = .error .value := by
+  constructor
+  · cases u <;> rfl
+  · cases n <;> rfl
+
+/-! ## 6. Van Vleck correction -/
+
+section vv
+variable {K : Type} [Field K] [LinearOrder K] [IsStrictOrderedRing K]
+variable {α : Type} [DecidableEq α]
+
+/-- **c15_vanvleck_only_autos**: on every sample the correction leaves every cross-correlation
+    product (inputs differ: other antenna *or* other polarisation) untouched and replaces an
+    autocorrelation by the table interpolation of its real part (the assignment makes the
+    imaginary part zero, so only the real part changes for a real autocorrelation). -/
+theorem c15_vanvleck_only_autos (tbl : List (K × K)) (cps : List (α × α)) (ai i1 i2 : List Nat)
+    (row out : List (Cx (Scalar K))) (hc : corrprodToAutocorr cps = .ok (ai, i1, i2))
+    (h : vanVleckRow tbl ai row = .ok out) :
+    out.length = row.length ∧
+    ∀ (b : Nat) (x y : α) (v : Cx (Scalar K)), cps[b]? = some (x, y) → row[b]? = some v →
+      (x ≠ y → out[b]? = some v) ∧
+      (x = y → ∃ r, interpS tbl v.re = .ok r ∧ out[b]? = some ⟨r, .val 0⟩ ∧
+        (v.im = .val 0 → out[b]? = some ⟨r, v.im⟩)) := by
+  obtain ⟨_, hmem⟩ := autocorr_indices cps ai i1 i2 hc
+  obtain ⟨hl, hall⟩ := vanVleckApply_spec tbl row ai row out rfl h
+  refine ⟨hl, ?_⟩
+  intro b x y v hb hv
+  constructor
+  · intro hxy
+    have : b ∉ ai := by
+      intro hm
+      obtain ⟨a, ha⟩ := (hmem b).1 hm
+      rw [hb] at ha
+      simp only [Option.some.injEq, Prod.mk.injEq] at ha
+      exact hxy (ha.1.trans ha.2.symm)
+    rw [(hall b).1 this, hv]
+  · intro hxy
+    subst hxy
+    have : b ∈ ai := (hmem b).2 ⟨x, hb⟩
+    obtain ⟨v', r, hv', hi, ho⟩ := (hall b).2 this
+    rw [hv] at hv'
+    cases hv'
+    exact ⟨r, hi, ho, fun him => by rw [ho, him]⟩
+
+/-- the dask-level function applies the per-sample correction to every sample with the global
+    autocorrelation positions (it rechunks to a single baseline chunk first) -/
+theorem c15_vanvleck_3d (tbl : List (K × K)) (cps : List (α × α)) (vis out : Arr3 (Cx (Scalar K)))
+    (h : correctAutocorrQuantisation tbl cps vis = .ok out) :
+    ∃ ai i1 i2, corrprodToAutocorr cps = .ok (ai, i1, i2) ∧
+      ∀ (t f : Nat) (row : List (Cx (Scalar K))), get2 vis t f = some row →
+        ∃ orow, get2 out t f = some orow ∧ vanVleckRow tbl ai row = .ok orow := by
+  unfold correctAutocorrQuantisation at h
+  cases hc : corrprodToAutocorr cps with
+  | error e => simp [hc] at h
+  | ok tr =>
+    obtain ⟨ai, i1, i2⟩ := tr
+    simp only [hc] at h
+    refine ⟨ai, i1, i2, rfl, ?_⟩
+    intro t f row hrow
+    obtain ⟨_, hp⟩ := mapME_ok h
+    unfold get2 at hrow
+    cases hvt : vis[t]? with
+    | none => simp [hvt] at hrow
+    | some vt =>
+      simp only [hvt] at hrow
+      obtain ⟨ot, hot, hz⟩ := hp t vt hvt
+      obtain ⟨_, hp2⟩ := mapME_ok hz
+      obtain ⟨orow, hor, hs⟩ := hp2 f row hrow
+      exact ⟨orow, by simp [get2, hot, hor], hs⟩
+
+/-- **c15_vanvleck_monotone**: a larger (finite) autocorrelation never gets a smaller corrected
+    value, provided the lookup table is monotone (run-time tested for the actual table) -/
+theorem c15_vanvleck_monotone (tbl : List (K × K)) (hm : tableMonoList tbl) {x y vx vy : K} (hxy : x ≤ y)
+    (hx : interpS tbl (.val x) = .ok (.val vx)) (hy : interpS tbl (.val y) = .ok (.val vy)) : vx ≤ vy := by
+  unfold interpS at hx hy
+  cases hix : interp x tbl with
+  | error e => simp [hix] at hx
+  | ok a =>
+    cases hiy : interp y tbl with
+    | error e => simp [hiy] at hy
+    | ok b =>
+      simp [hix] at hx
+      simp [hiy] at hy
+      subst hx; subst hy
+      exact interp_monotone tbl hm hxy hix hiy
+
+/-- −inf / +inf clip to the first / last table value, which bound every interpolated value -/
+theorem c15_vanvleck_clip (p0 : K × K) (rest : List (K × K)) (hm : tableMono p0 rest) (x v : K)
+    (hx : interpS (p0 :: rest) (.val x) = .ok (.val v)) :
+    ∃ lo hi, interpS (p0 :: rest) .negInf = .ok (.val lo) ∧ interpS (p0 :: rest) .posInf = .ok (.val hi) ∧
+      lo ≤ v ∧ v ≤ hi ∧ interpS (p0 :: rest) .nan = .ok .nan := by
+  refine ⟨p0.2, lastFp p0 rest, rfl, rfl, ?_, ?_, rfl⟩
+  all_goals
+    unfold interpS at hx
+    cases hix : interp x (p0 :: rest) with
+    | error e => simp [hix] at hx
+    | ok a =>
+      simp [hix] at hx
+      subst hx
+      first
+        | exact (interp_bounds p0 rest hm x a hix).1
+        | exact (interp_bounds p0 rest hm x a hix).2
+
+end vv
+
+example : mapME (interpS [((0 : Rat), (0 : Rat)), (1, 10), (3, 20)])
+    [.val (-1), .val 0, .val (1 / 2), .val 1, .val 2, .val 3, .val 4, .posInf, .nan, .negInf]
+    = .ok [.val 0, .val 0, .val 5, .val 10, .val 15, .val 20, .val 20, .val 20, .nan, .val 0] := by
+  decide +kernel
+
+example : vanVleckRow [((0 : Rat), (0 : Rat)), (1, 10), (3, 20)] [1]
+    [⟨.val 2, .val 7⟩, ⟨.val 2, .val 0⟩] = .ok [⟨.val 2, .val 7⟩, ⟨.val 15, .val 0⟩] := by decide +kernel
+
+/-! ## 7. averaging -/
+
+section avg
+variable {K : Type} [Field K] [DecidableEq K]
+
+/-- **c15_average**: `average_visibilities` returns `⌊nT / timeav'⌋ × ⌊nC / chanav⌋ × nB` bins
+    (`timeav' = min(timeav, nT)`: the code clamps the time factor and — through a typo that clamps
+    `flagav` instead — not the channel factor, so `chanav > nC` leaves no channel bin at all);
+    the trailing remainder on either axis is dropped; every bin holds the documented value
+    `binSpec`: weight-averaged unflagged visibilities (plain mean when the unflagged weights sum
+    to zero), summed unflagged weights, AND (OR when `flagav`) of the flags. -/
+theorem c15_average (nT nC nB : Nat) (inp : Nat → Nat → Nat → Sample K) (timeav chanav : Nat) (flagav : Bool)
+    (r : AvResult K) (h : averageVisibilities nT nC nB inp timeav chanav flagav = .ok r) :
+    r.nT = nT / min timeav nT ∧ r.nC = nC / chanav ∧ r.nB = nB ∧
+    ∀ avT avC b : Nat, avC < r.nC →
+      r.out avT avC b =
+        binSpec flagav (binSamples inp (avT * min timeav nT) (avC * chanav) (min timeav nT) chanav b) := by
+  unfold averageVisibilities at h
+  simp only at h
+  split at h
+  · simp at h
+  · rename_i hz
+    have hta : 0 < min timeav nT := by omega
+    have hca : 0 < chanav := by omega
+    simp only [Except.ok.injEq] at h
+    subst h
+    refine ⟨Nat.mul_div_cancel _ hta, Nat.mul_div_cancel _ hca, rfl, ?_⟩
+    intro avT avC b hC
+    simp only at hC
+    rw [Nat.mul_div_cancel _ hca] at hC
+    have hnC : nC ≠ 0 := by
+      intro h0
+      subst h0
+      simp at hC
+    simp only [hnC, if_false]
+    rw [binLoops_eq_foldl]
+    have hlen := binSamples_length inp (avT * min timeav nT) (avC * chanav) (min timeav nT) chanav b
+    rw [← hlen]
+    exact bin_eq_spec flagav _
+
+/-- every sample a bin reads lies inside the input: nothing beyond the last whole bin is used and
+    nothing outside the array is touched ("trailing remainder dropped") -/
+theorem c15_average_in_range (nT nC timeav chanav avT avC dt dc : Nat)
+    (hT : avT < nT / min timeav nT) (hC : avC < nC / chanav) (hdt : dt < min timeav nT) (hdc : dc < chanav) :
+    avT * min timeav nT + dt < nT ∧ avC * chanav + dc < nC := by
+  constructor
+  · have h1 : (avT + 1) * min timeav nT ≤ nT / min timeav nT * min timeav nT := Nat.mul_le_mul_right _ (by omega)
+    have h2 := Nat.div_mul_le_self nT (min timeav nT)
+    rw [Nat.succ_mul] at h1
+    omega
+  · have h1 : (avC + 1) * chanav ≤ nC / chanav * chanav := Nat.mul_le_mul_right _ (by omega)
+    have h2 := Nat.div_mul_le_self nC chanav
+    rw [Nat.succ_mul] at h1
+    omega
+
+/-- a zero averaging factor (or an empty time axis) is rejected (ZeroDivisionError) -/
+theorem c15_average_zero_factor (nT nC nB : Nat) (inp : Nat → Nat → Nat → Sample K) (timeav chanav : Nat)
+    (flagav : Bool) (hz : min timeav nT = 0 ∨ chanav = 0) :
+    averageVisibilities nT nC nB inp timeav chanav flagav = .error .other := by
+  unfold averageVisibilities
+  simp only
+  rw [if_pos hz]
+
+/-- a bin whose samples are all flagged: plain mean of the visibilities, zero weight, flagged -/
+theorem c15_average_all_flagged (flagav : Bool) (samples : List (Sample K)) (hne : samples ≠ [])
+    (hall : ∀ s ∈ samples, s.2.2 = true) :
+    binSpec flagav samples =
+      (⟨sumK (samples.map (·.1.re)) * (1 / ((samples.length : Nat) : K)),
+        sumK (samples.map (·.1.im)) * (1 / ((samples.length : Nat) : K))⟩, 0, true) := by
+  have hf : samples.filter (fun s => !s.2.2) = [] := by
+    rw [List.filter_eq_nil_iff]
+    intro s hs
+    simp [hall s hs]
+  have hany : samples.any (·.2.2) = true := by
+    cases samples with
+    | nil => exact absurd rfl hne
+    | cons s t => simp [hall s (List.mem_cons_self ..)]
+  have hallb : samples.all (·.2.2) = true := by
+    rw [List.all_eq_true]
+    exact hall
+  unfold binSpec
+  simp only [hf, List.map_nil, sumK, List.foldl_nil, if_true, hany, hallb]
+  cases flagav <;> rfl
+
+/-- a bin without flagged samples and non-zero total weight: the weighted mean and total weight -/
+theorem c15_average_unflagged (flagav : Bool) (samples : List (Sample K)) (hall : ∀ s ∈ samples, s.2.2 = false)
+    (hw : sumK (samples.map (·.2.1)) ≠ 0) :
+    (binSpec flagav samples).1 =
+      ⟨sumK (samples.map (fun s => s.2.1 * s.1.re)) / sumK (samples.map (·.2.1)),
+       sumK (samples.map (fun s => s.2.1 * s.1.im)) / sumK (samples.map (·.2.1))⟩ ∧
+    (binSpec flagav samples).2.1 = sumK (samples.map (·.2.1)) := by
+  have hf : samples.filter (fun s => !s.2.2) = samples := by
+    rw [List.filter_eq_self]
+    intro s hs
+    simp [hall s hs]
+  unfold binSpec
+  simp [hf, hw]
+
+end avg
+
+example : (binSpec (K := Rat) false [(⟨1, 0⟩, 1, true), (⟨2, 0⟩, 1, false), (⟨3, 0⟩, 1, false), (⟨4, 0⟩, 1, false)])
+    = (⟨3, 0⟩, 3, false) := by decide +kernel
+
+example : ∃ r, averageVisibilities (K := Rat) 3 5 1 (fun t c _ => (⟨(t * 5 + c : Nat), 0⟩, 1, false)) 7 2 false = .ok r ∧
+    r.nT = 1 ∧ r.nC = 2 ∧ r.out 0 1 0 = (⟨15 / 2, 0⟩, 6, false) := ⟨_, rfl, by decide +kernel⟩
+
+/-! ## 8. HDF5 v3 weights -/
+
+/-- **c15_v3_weights**: `weights[t,f,b] = weights[t,f,b] · weights_channel[t,f]`, an absent
+    dataset reads as one, and with no weight type selected everything is one -/
+theorem c15_v3_weights {K : Type} [Field K] (w : Nat → Nat → Nat → K) (wc : Nat → Nat → K) (t f b : Nat) :
+    v3Weights (some w) (some wc) true t f b = w t f b * wc t f ∧
+    v3Weights none (some wc) true t f b = wc t f ∧
+    v3Weights (some w) none true t f b = w t f b ∧
+    v3Weights (none : Option (Nat → Nat → Nat → K)) none true t f b = 1 ∧
+    ∀ w' wc', v3Weights (K := K) w' wc' false t f b = 1 := by
+  refine ⟨rfl, ?_, ?_, ?_, ?_⟩
+  · simp [v3Weights]
+  · simp [v3Weights]
+  · simp [v3Weights]
+  · intro w' wc'; simp [v3Weights]
+
+example : v3Weights (K := Rat) (some fun t f b => (t + f + b : Nat)) (some fun _ _ => 1 / 2) true 1 2 3 = 3 := by
+  decide +kernel
 
 end C15
